@@ -55,3 +55,177 @@ def chk_isi(rec, be):
         else:
             _cmp_arrays(out, sub, rec, hdr, (r.x, r.y), (X, Y), (sg, 1.0))
     return n, out
+
+
+# ---------------------------------------------------------------- C02  SPIKE profile
+@checker("spike")
+def chk_spike(rec, be):
+    a, b, ts, te = rec["a"], rec["b"], rec["ts"], rec["te"]
+    m = fr(rec["mrts"])
+    ri = bool(rec["ri"])
+    X, Y1, Y2 = rec["x"], frl(rec["y1"]), frl(rec["y2"])
+    hdr = "a=%s b=%s [%s,%s] MRTS=%s RI=%s" % (a, b, ts, te, m, ri)
+    out = []
+    n = 0
+    for sg in rec.get("_sigmas", SIGMAS):
+        f = PB.spike_distance_python if be == "py" else shim("cython_profiles", "spike_profile_cython")
+        st, r = call(f, nonempty(a, ts, te, sg), nonempty(b, ts, te, sg), ts * sg, te * sg, float(m) * sg, ri)
+        n += 1
+        sub = "spike-kernel[%s,s=%g]" % (be, sg)
+        if st != "ok":
+            out.append(_mm(sub, "%s %s raised %s" % (sub, hdr, r)))
+        else:
+            _cmp_arrays(out, sub, rec, hdr, r, (X, Y1, Y2), (sg, 1.0, 1.0))
+        st, r = call(pyspike.spike_profile, train(a, ts, te, sg), train(b, ts, te, sg), MRTS=float(m) * sg, RI=ri)
+        n += 1
+        sub = "spike_profile[%s,s=%g]" % (be, sg)
+        if st != "ok":
+            out.append(_mm(sub, "%s %s raised %s" % (sub, hdr, r)))
+        else:
+            _cmp_arrays(out, sub, rec, hdr, (r.x, r.y1, r.y2), (X, Y1, Y2), (sg, 1.0, 1.0))
+    return n, out
+
+
+# ---------------------------------------------------------------- C03  SPIKE-Sync profile
+def _mt(rec, sg, variant=0):
+    """user-level max_tau: the spec value 0 means None / 0"""
+    t = float(fr(rec["mtau"])) * sg
+    return t
+
+
+def _cmp_disc(out, sub, hdr, got, exp, sg):
+    names = ("x", "y", "mp")
+    for name, g, e in zip(names, got, exp):
+        g = np.asarray(g, dtype=float)
+        sc = sg if name == "x" else 1.0
+        e2 = [float(v) * sc for v in e]
+        if len(g) != len(e2) or not all(close(gi, ei, sc) for gi, ei in zip(g, e2)):
+            out.append(_mm(sub, "%s %s: %s = %s expected %s" % (sub, hdr, name, fl(g), e2), fl(g), e2))
+            return False
+    return True
+
+
+@checker("sync")
+def chk_sync(rec, be):
+    a, b, ts, te = rec["a"], rec["b"], rec["ts"], rec["te"]
+    m = fr(rec["mrts"])
+    hdr = "a=%s b=%s [%s,%s] MRTS=%s max_tau=%s" % (a, b, ts, te, m, fr(rec["mtau"]))
+    out = []
+    n = 0
+    exp = (rec["x"], rec["c"], rec["mp"])
+    for k, sg in enumerate(rec.get("_sigmas", SIGMAS)):
+        mt = _mt(rec, sg)
+        f = PB.coincidence_python if be == "py" else shim("cython_profiles", "coincidence_profile_cython")
+        st, r = call(f, arr(a, sg), arr(b, sg), ts * sg, te * sg, mt, float(m) * sg)
+        n += 1
+        sub = "sync-kernel[%s,s=%g]" % (be, sg)
+        if st != "ok":
+            out.append(_mm(sub, "%s %s raised %s" % (sub, hdr, r)))
+        else:
+            _cmp_disc(out, sub, hdr, r, exp, sg)
+        mtu = None if (mt == 0 and k % 2 == 0) else mt
+        st, r = call(pyspike.spike_sync_profile, train(a, ts, te, sg), train(b, ts, te, sg),
+                     max_tau=mtu, MRTS=float(m) * sg)
+        n += 1
+        sub = "spike_sync_profile[%s,s=%g,max_tau=%r]" % (be, sg, mtu)
+        if st != "ok":
+            out.append(_mm(sub, "%s %s raised %s" % (sub, hdr, r)))
+        else:
+            _cmp_disc(out, sub, hdr, (r.x, r.y, r.mp), exp, sg)
+    return n, out
+
+
+@checker("single")
+def chk_single(rec, be):
+    a, b, ts, te = rec["a"], rec["b"], rec["ts"], rec["te"]
+    m = fr(rec["mrts"])
+    hdr = "a=%s b=%s [%s,%s] MRTS=%s max_tau=%s" % (a, b, ts, te, m, fr(rec["mtau"]))
+    out = []
+    n = 0
+    for sg in rec.get("_sigmas", SIGMAS):
+        f = PB.coincidence_single_python if be == "py" else \
+            shim("cython_profiles", "coincidence_single_profile_cython")
+        st, r = call(f, arr(a, sg), arr(b, sg), ts * sg, te * sg, _mt(rec, sg), float(m) * sg)
+        n += 1
+        sub = "single-kernel[%s,s=%g]" % (be, sg)
+        if st != "ok":
+            out.append(_mm(sub, "%s %s raised %s" % (sub, hdr, r)))
+        else:
+            g = [float(v) for v in np.asarray(r, dtype=float)]
+            if g != [float(v) for v in rec["c"]]:
+                out.append(_mm(sub, "%s %s: c = %s expected %s" % (sub, hdr, g, rec["c"]), g, rec["c"]))
+    return n, out
+
+
+# ---------------------------------------------------------------- C04  order / directionality (bivariate)
+@checker("order")
+def chk_order(rec, be):
+    a, b, ts, te = rec["a"], rec["b"], rec["ts"], rec["te"]
+    m = fr(rec["mrts"])
+    hdr = "a=%s b=%s [%s,%s] MRTS=%s max_tau=%s" % (a, b, ts, te, m, fr(rec["mtau"]))
+    out = []
+    n = 0
+    exp = (rec["x"], rec["ord"], rec["mp"])
+    d1e = [float(v) for v in rec["d1"]]
+    d2e = [float(v) for v in rec["d2"]]
+    for k, sg in enumerate(rec.get("_sigmas", SIGMAS)):
+        mt = _mt(rec, sg)
+        mtu = None if (mt == 0 and k % 2 == 0) else mt
+        A, B = arr(a, sg), arr(b, sg)
+        f = DPB.spike_train_order_profile_python if be == "py" else \
+            shim("cython_directionality", "spike_train_order_profile_cython")
+        st, r = call(f, A, B, ts * sg, te * sg, mt, float(m) * sg)
+        n += 1
+        sub = "order-kernel[%s,s=%g]" % (be, sg)
+        if st != "ok":
+            out.append(_mm(sub, "%s %s raised %s" % (sub, hdr, r)))
+        else:
+            _cmp_disc(out, sub, hdr, r, exp, sg)
+        f = DPB.spike_directionality_profile_python if be == "py" else \
+            shim("cython_directionality", "spike_directionality_profiles_cython")
+        st, r = call(f, A, B, ts * sg, te * sg, mt, float(m) * sg)
+        n += 1
+        sub = "dir-kernel[%s,s=%g]" % (be, sg)
+        if st != "ok":
+            out.append(_mm(sub, "%s %s raised %s" % (sub, hdr, r)))
+        else:
+            g1, g2 = fl(np.asarray(r[0], dtype=float)), fl(np.asarray(r[1], dtype=float))
+            if g1 != d1e or g2 != d2e:
+                out.append(_mm(sub, "%s %s: d1,d2 = %s,%s expected %s,%s" % (sub, hdr, g1, g2, d1e, d2e),
+                               [g1, g2], [d1e, d2e]))
+        s1, s2 = train(a, ts, te, sg), train(b, ts, te, sg)
+        st, r = call(pyspike.spike_train_order_profile, s1, s2, max_tau=mtu, MRTS=float(m) * sg)
+        n += 1
+        sub = "spike_train_order_profile[%s,s=%g,max_tau=%r]" % (be, sg, mtu)
+        if st != "ok":
+            out.append(_mm(sub, "%s %s raised %s" % (sub, hdr, r)))
+        else:
+            _cmp_disc(out, sub, hdr, (r.x, r.y, r.mp), exp, sg)
+        st, r = call(pyspike.spike_directionality_values, s1, s2, max_tau=mtu, MRTS=float(m) * sg)
+        n += 1
+        sub = "spike_directionality_values[%s,s=%g]" % (be, sg)
+        if st != "ok":
+            out.append(_mm(sub, "%s %s raised %s" % (sub, hdr, r)))
+        else:
+            g1, g2 = fl(np.asarray(r[0], dtype=float)), fl(np.asarray(r[1], dtype=float))
+            if g1 != d1e or g2 != d2e:
+                out.append(_mm(sub, "%s %s: values = %s,%s expected %s,%s" % (sub, hdr, g1, g2, d1e, d2e),
+                               [g1, g2], [d1e, d2e]))
+        # directionality of A with respect to B: sum of A's values (normalised: / A's spike count)
+        dsum = sum(d1e)
+        st, r = call(pyspike.spike_directionality, s1, s2, normalize=False, max_tau=mtu, MRTS=float(m) * sg)
+        n += 1
+        sub = "spike_directionality[%s,s=%g,normalize=False]" % (be, sg)
+        if st != "ok":
+            out.append(_mm(sub, "%s %s raised %s" % (sub, hdr, r)))
+        elif not close(r, dsum):
+            out.append(_mm(sub, "%s %s = %r expected %s" % (sub, hdr, r, dsum), float(r), dsum))
+        if len(a) > 0:
+            st, r = call(pyspike.spike_directionality, s1, s2, max_tau=mtu, MRTS=float(m) * sg)
+            n += 1
+            sub = "spike_directionality[%s,s=%g]" % (be, sg)
+            if st != "ok":
+                out.append(_mm(sub, "%s %s raised %s" % (sub, hdr, r)))
+            elif not close(r, dsum / len(a)):
+                out.append(_mm(sub, "%s %s = %r expected %s" % (sub, hdr, r, dsum / len(a)), float(r), dsum / len(a)))
+    return n, out
